@@ -1,0 +1,62 @@
+//go:build verif
+
+package hpack
+
+// C02, dynamic table size clause ("never lets its dynamic table exceed the allowed maximum
+// size"): contracts for the eviction machinery of hpack.go / tables.go.
+//
+// evict: afterwards the accounted size is within the maximum, or the table is empty. (That an
+// empty table has accounted size 0 is the sum invariant size == sum of entry sizes; it needs an
+// inductive argument over the entry sequence across the shift in evictOldest and is NOT proved:
+// listed assumption.) The maximum itself is not touched by evict.
+
+//@ func (*dynamicTable).evict(dt)
+//@   requires dt != nil
+//@   ensures  dt.maxSize == old(dt.maxSize)
+//@   ensures  dt.size <= dt.maxSize || len(dt.table.ents) == 0
+//@   ensures  len(dt.table.ents) <= old(len(dt.table.ents))
+//@   ensures  old(dt.size) <= old(dt.maxSize) ==> dt.size == old(dt.size) && len(dt.table.ents) == old(len(dt.table.ents))
+//@   loop 1 invariant 0 <= n && n <= len(dt.table.ents) && dt.maxSize == old(dt.maxSize)
+//@   loop 1 invariant len(dt.table.ents) == old(len(dt.table.ents)) && dt.table.evictCount == old(dt.table.evictCount)
+//@   loop 1 invariant old(dt.size) <= old(dt.maxSize) ==> n == 0 && dt.size == old(dt.size)
+//@   loop 1 modifies dt.size
+//@   modifies *dt, elems(old(dt.table.ents)), mapof(dt.table.byName), mapof(dt.table.byNameValue)
+
+// evictOldest drops exactly the n oldest entries: the remaining ones move to the front in order,
+// and the eviction counter advances by n. Assumed (partial nopanic.explicit.1): the explicit
+// "evictCount overflow" panic is unreachable (2^64 evictions).
+//
+//@ func (*headerFieldTable).evictOldest(t, n)
+//@   requires t != nil && 0 <= n && n <= len(t.ents)
+//@   ensures  len(t.ents) == old(len(t.ents)) - n
+//@   ensures  t.evictCount == old(t.evictCount) + uint64(n)
+//@   ensures  forall i int :: 0 <= i && i < len(t.ents) ==> t.ents[i].Name == old(t.ents[i+n].Name) && t.ents[i].Value == old(t.ents[i+n].Value) && t.ents[i].Sensitive == old(t.ents[i+n].Sensitive)
+//@   loop 1 invariant 0 <= k && k <= n && len(t.ents) == old(len(t.ents)) && t.evictCount == old(t.evictCount)
+//@   loop 1 invariant forall i int :: 0 <= i && i < len(t.ents) ==> t.ents[i] == old(t.ents[i])
+//@   loop 2 invariant len(t.ents) == old(len(t.ents)) && len(t.ents) - n <= k && k <= len(t.ents) && t.evictCount == old(t.evictCount)
+//@   loop 2 invariant forall i int :: 0 <= i && i < len(t.ents) - n ==> t.ents[i] == old(t.ents[i+n])
+//@   partial nopanic.explicit.1
+//@   loop 2 modifies elems(t.ents)
+//@   modifies t.ents, t.evictCount, elems(old(t.ents)), mapof(t.byName), mapof(t.byNameValue)
+
+// setMaxSize / add: replace the assumed contracts of verif_contracts.go by checked ones.
+// Assumed in add (partial nopanic.nilmap): the table's two index maps are initialised
+// (NewDecoder / NewEncoder call table.init() before the table is used).
+//
+//@ extend (*dynamicTable).setMaxSize(dt, v)
+//@   untrusted
+//@   requires dt != nil
+//@   ensures  dt.maxSize == v
+//@   ensures  dt.size <= dt.maxSize || len(dt.table.ents) == 0
+//@   ensures  len(dt.table.ents) <= old(len(dt.table.ents))
+//@   modifies elems(old(dt.table.ents)), mapof(dt.table.byName), mapof(dt.table.byNameValue)
+
+//@ extend (*dynamicTable).add(dt, f)
+//@   untrusted
+//@   requires dt != nil
+//@   partial nopanic.nilmap
+//@   ensures  dt.maxSize == old(dt.maxSize)
+//@   ensures  dt.size <= dt.maxSize || len(dt.table.ents) == 0
+//@   ensures  len(dt.table.ents) <= old(len(dt.table.ents)) + 1
+//@   modifies elems(old(dt.table.ents)), mapof(dt.table.byName), mapof(dt.table.byNameValue)
+//@   allocates
